@@ -49,7 +49,8 @@ def computeRoot (H : Hashes) (nFriendly : Felt) : Nat → List QD → List Felt 
         let parent := Felt.ofNat (cur.index.val / 2)
         let bit := cur.index.val % 2
         let friendly := decide (nFriendly.val ≥ cur.depth.val)
-        let withAuth : Outcome Felt :=
+        -- (a thunk: the compiled code must not evaluate the recursive call of the unused branch)
+        let withAuth : Unit → Outcome Felt := fun _ =>
           match auths with
           | [] => .err "IndexInvalid"
           | a :: auths' =>
@@ -61,9 +62,9 @@ def computeRoot (H : Hashes) (nFriendly : Felt) : Nat → List QD → List Felt 
             if cur.index + 1 = next.index then
               computeRoot H nFriendly fuel
                 (rest' ++ [⟨parent, hashFU H cur.value next.value friendly, cur.depth - 1⟩]) auths
-            else withAuth
-          | [] => withAuth
-        else withAuth
+            else withAuth ()
+          | [] => withAuth ()
+        else withAuth ()
 
 /-- `vector_commitment_decommit` -/
 def decommit (H : Hashes) (c : Commitment) (queries : List Query) (auths : List Felt) : Outcome Unit :=
